@@ -14,7 +14,7 @@ RULE = ("tree of four 131073-byte files that share prefix and suffix (two equal,
         "the file's mtime by 10 ms - and runs `group --cache` with a configuration from {metro, blake3, sha512} x {no transform, "
         "transform cat} x --max-prefix-size {unset, 8192} or with a transform that fails for every file after two bytes of output, or with the length-changing transforms `head -c 1000` / `head -c 70000` (same program, different classes), or one command string with and without --in-place, or a run SIGKILLed at 1/4, 1/2, 3/4 of its call history; "
         "ALL histories (edit, run)^d after an initial cache-filling run: quick d=2 over all ordered pairs of 10 edits, each with two of the four configuration pairs + 5 edits x the (head, head2) switches + 5 x 3 edits under blake3 and sha512 (long digests); "
-        "thorough d=2 over the full alphabet and d=3 over 6 edits x 2 configurations (+ killed runs); (f) an edit applied WHILE a cached run (single-threaded, cold cache) is in progress - paused just before and just after every call that touches the edited file - followed by two complete cached runs; (g) two fresh tmpfs instances below the root whose k-th files have equal inode numbers, lengths and modification times: every sequence of three cached runs over {vol1, vol2, both}. A state is the "
+        "thorough d=2 over all ordered pairs of 15 edits x {all ordered pairs of 6 main configurations, each other configuration twice, 13 special configuration switches} and d=3 over 6 edits x 2 configurations (+ killed runs); (f) an edit applied WHILE a cached run (single-threaded, cold cache) is in progress - paused just before and just after every call that touches the edited file - followed by two complete cached runs; (g) two fresh tmpfs instances below the root whose k-th files have equal inode numbers, lengths and modification times: every sequence of three cached runs over {vol1, vol2, both}. A state is the "
         "tree + cache after a history prefix; a transition is one event. Invariant after every run: the report body "
         "(lengths, hashes, paths, order) of the cached run equals that of an uncached run of the same configuration on "
         "the same tree state.")
@@ -123,9 +123,24 @@ def cases(tier, seed):
                 for e2 in few:
                     out.append({"history": [[list(e1), c1], [list(e2), c2]], "kills": False})
     else:
-        steps = [(e, c) for e in EDITS_FULL for c in CONFIGS]
-        for h in itertools.product(steps, repeat=2):
-            out.append({"history": [list(x) for x in h], "kills": False})
+        # every ordered pair of edits under every ordered pair of the six main configurations, and every pair of
+        # edits with each of the other configurations used for both runs (the special-purpose pairs follow below)
+        main = ["metro", "blake3_tr", "metro_p8k", "metro_head", "sha512", "metro_ip_on"]
+        for e1 in EDITS_FULL:
+            for e2 in EDITS_FULL:
+                for c1 in main:
+                    for c2 in main:
+                        out.append({"history": [[list(e1), c1], [list(e2), c2]], "kills": False})
+                for c in CONFIGS:
+                    if c not in main:
+                        out.append({"history": [[list(e1), c], [list(e2), c]], "kills": False})
+        for c1, c2 in (("metro_ip_off", "metro_ip_on"), ("metro_ip_on", "metro_ip_off"), ("metro_ip_text", "metro_ip_on"),
+                       ("metro_ip_on", "metro_ip_text"), ("metro_tr", "blake3_tr"), ("blake3_tr", "metro_tr"),
+                       ("metro_head", "metro_head2"), ("metro_head2", "metro_head"), ("metro_failpart", "metro_head"),
+                       ("metro_head", "metro_failpart"), ("metro", "blake3"), ("blake3_p8k", "blake3"), ("metro_tr_p8k", "metro_tr")):
+            for e1 in EDITS_FULL:
+                for e2 in EDITS_FULL[:11]:
+                    out.append({"history": [[list(e1), c1], [list(e2), c2]], "kills": False})
         for e1, e2 in RESTORE_PAIRS:
             for cfg in CONFIGS:
                 out.append({"history": [[list(e1), cfg], [list(e2), cfg]], "kills": False})
